@@ -138,8 +138,15 @@ def main(argv=None):
         n_corpus = len(cases)
         from harness import translate_src
 
+        from harness import source_pins
+
         fallbacks = translate_src.fallbacks_for(prop)
         gen_tier = tier
+        source_drift = source_pins.drift(prop)
+        if source_drift:
+            # an anchored file differs from the state the model was last validated against: search harder (never a violation by itself)
+            gen_tier = 'thorough'
+            print(f'NOTE {prop}: source drift in {sorted(source_drift)}; correspondence searched with the thorough generators')
         if fallbacks:
             # the source left the translatable fragment at a site this property relies on: the 'for all integers' tie is
             # gone for that site, so the sampled tie has to carry more - search with the thorough generators
@@ -287,6 +294,7 @@ def main(argv=None):
             'trusted_base': TRUSTED_BASE + list(getattr(mod, 'TRUSTED_EXTRA', [])),
             'theorems': {t: axioms.get(t) for t in thms},
             'translated_sites': lean.translated_sites(),
+            'source_drift': {k: list(v) for k, v in (source_drift if not args.replay else {}).items()},
             'broken_obligations': broken_thms,
             'leanchecker_exit': leanchecker,
             'build_seconds': round(build_s, 1),
